@@ -74,7 +74,8 @@ def validate_runs(prop, runs, cfg_name, want_props):
             raise common.ToolError(f"trace validation failed without a finding for {prop}: {v['violated']}\n{v['out_tail']}")
         keep = os.path.join(common.outdir(prop, "replay"), os.path.basename(run["trace"]))
         os.replace(run["trace"], keep)
-        path = common.write_replay(prop, "trace_violation", {"property": prop, "mode": "random", "config": run["config"],
+        path = common.write_replay(prop, "trace_violation", {"property": prop, "mode": "scenario" if run.get("scenario") else "random",
+                                                             "scenario": run.get("scenario"), "config": run["config"],
                                                              "seed": run["seed"], "steps": run["steps"], "what": hit,
                                                              "trace": keep, "cfg": cfg_name})
         raise common.Violation(prop, hit, path)
@@ -125,11 +126,34 @@ def replay_random(prop, path, cfg_name, want_props):
     d = common.outdir(prop, "replay")
     trace = os.path.join(d, "replay.ndjson")
     rep = os.path.join(d, "replay_report.json")
-    common.run_bin("bft_drive", ["random", trace, rep, c["seed"], c["steps"], c["config"], "1"], timeout=900)
-    run = {"config": c["config"], "seed": c["seed"], "steps": c["steps"], "trace": trace, "report": common.load_report(rep)}
+    if c.get("mode") == "scenario":
+        common.run_bin("bft_drive", ["replay", c["scenario"], trace, rep], timeout=900)
+    else:
+        common.run_bin("bft_drive", ["random", trace, rep, c["seed"], c["steps"], c["config"], "1"], timeout=900)
+    run = {"config": c["config"], "seed": c.get("seed", 0), "steps": c.get("steps", 0), "trace": trace, "report": common.load_report(rep),
+           "scenario": c.get("scenario")}
+    driver_failures(prop, [run], {"panic", "no_progress"} if prop == "C06" else {"panic"})
     validate_runs(prop, [run], cfg_name, want_props)
     log("replay: no violation reproduced")
     return 0
+
+
+def run_scenarios(prop):
+    """Replays every committed scenario (T4 attacks from weakened specs, T2 examples of the faithful spec) on the real code."""
+    import attacks
+    common.cargo_build()
+    d = common.outdir(prop, "traces")
+    runs = []
+    for scn in attacks.scenarios():
+        name = os.path.basename(scn)[:-5]
+        trace = os.path.join(d, f"scn_{name}.ndjson")
+        rep = os.path.join(d, f"scn_{name}.json")
+        rc, so, se = common.run_bin("bft_drive", ["replay", scn, trace, rep], timeout=600)
+        if rc != 0 and not os.path.exists(rep):
+            raise common.ToolError(f"bft_drive replay failed rc={rc} scenario={name}: {se[-800:]}")
+        runs.append({"config": "scenario:" + name, "seed": 0, "steps": 0, "trace": trace, "report": common.load_report(rep),
+                     "scenario": scn})
+    return runs
 
 
 def run_property(prop, tier, seed, model_cfgs_quick, model_cfgs_thorough, trace_cfg, want_props, driver_keys,
@@ -139,6 +163,13 @@ def run_property(prop, tier, seed, model_cfgs_quick, model_cfgs_thorough, trace_
     cfgs = model_cfgs_quick if tier == "quick" else model_cfgs_thorough
     mres = model(prop, cfgs, timeout=model_timeout_quick if tier == "quick" else model_timeout_thorough)
     runs = run_random(prop, seed, tier, suffix=suffix)
+    scn_runs = run_scenarios(prop)
+    for sr in scn_runs:
+        c = sr["report"]["counters"]
+        if sr["config"].startswith("scenario:example_") and (c.get("skipped", 0) or c.get("outcome_differs", 0)):
+            log(f"NOTE drift component=bft scenario={sr['config']}: {c.get('skipped',0)} step(s) of a faithful-spec behaviour could not be "
+                f"materialised / {c.get('outcome_differs',0)} outcome(s) differ (conformance itself is decided by trace validation)")
+    runs = runs + scn_runs
     cnt = counters(runs)
     extra_cov = extra(prop, tier, seed) if extra else {}
     viol = 0
@@ -163,6 +194,7 @@ def run_property(prop, tier, seed, model_cfgs_quick, model_cfgs_thorough, trace_
             "exhaustive": all(m["exhaustive"] for m in mres),
             "trace_events_checked_by_tlc": nev,
             "driver_counters": {k: v for k, v in cnt.items() if not k.startswith("class:ERR")},
+            "scenarios_replayed": [os.path.basename(r["scenario"]) for r in scn_runs],
         }
         cov.update(extra_cov)
         common.write_evidence(prop, tier, seed, "model_checking", cov, assumptions, time.time() - t0, viol)
